@@ -374,8 +374,8 @@ func TestC10(t *testing.T) {
 		Rule:        "case = one scenario with metadata_keys configured (mixed-case key sets; single / multi-valued / absent / empty values; limits 0,1,2,5; simultaneous first arrivals of distinct combinations with a hook delay between the shard-map miss and the lock). Oracle per export: all uids come from requests with one identical combination of values for the configured keys (case-insensitive), and client.FromContext(ctx).Metadata of the export call agrees with it on every configured key; refused calls carry a permanent error and none of their uids is exported; distinct admitted combinations <= limit; the admission history {Consume(combo) -> admitted|refused, call/return stamps from the log's sequence counter} is checked with porcupine against a set with capacity metadata_cardinality_limit (one history per scenario, <= 40 operations, 2-minute checker timeout => inconclusive). Layers: bubble and real-time stress under -race. Non-trivial = >=2 distinct combinations in the scenario. Distinct = (config, combination sequence).",
 		Assumptions: bpAssumptions,
 		Gates: map[string]map[string]int{
-			"quick":    {"scenarios": 400, "admission_histories_checked_with_porcupine": 400, "refused_calls": 100, "batches_checked": 2000},
-			"thorough": {"scenarios": 10000, "admission_histories_checked_with_porcupine": 10000, "refused_calls": 3000, "batches_checked": 60000},
+			"quick":    {"scenarios": 400, "admission_histories_checked_with_porcupine": 400, "refused_calls": 100, "batches_checked": 2000, "hammer_calls_refused_permanently": 500000},
+			"thorough": {"scenarios": 10000, "admission_histories_checked_with_porcupine": 10000, "refused_calls": 3000, "batches_checked": 60000, "hammer_calls_refused_permanently": 8000000},
 		},
 	})
 	e := r.Env
@@ -409,6 +409,35 @@ func TestC10(t *testing.T) {
 		if c.Idx < 40 {
 			c.Sample(sc.Describe())
 		}
+	})
+	// over-limit hammer (real parallelism, no per-call bookkeeping): the limit is filled first, then
+	// many goroutines submit requests for combinations beyond it; since the fillers RETURNED before the
+	// hammer starts, every hammer call must be refused with the permanent error and export nothing
+	r.Layer("overlimit-hammer", e.Pick(8, 80), func(c *vc.Case) {
+		if c.Idx%3 == 2 {
+			runtime.GOMAXPROCS(2)
+			defer runtime.GOMAXPROCS(runtime.NumCPU())
+		}
+		limit := 1 + c.R.IntN(2)
+		early := c.R.IntN(2) == 0
+		res := hammerOverLimit(limit, early, 8, e.Pick(12000, 20000), 1+c.R.IntN(2))
+		c.Count("hammer_calls", res.calls)
+		c.Count("hammer_calls_refused_permanently", res.refused)
+		if res.err != nil {
+			c.Inconclusive("hammer could not run: " + res.err.Error())
+			return
+		}
+		if res.bad > 0 {
+			c.Violation("request with a combination beyond metadata_cardinality_limit was not refused with the permanent error",
+				fmt.Sprintf("limit=%d early_return=%v: %d of %d concurrent over-limit calls were not refused; first: %s", limit, early, res.bad, res.calls, res.firstBad),
+				map[string]any{"limit": limit, "early_return": early, "calls": res.calls, "not_refused": res.bad, "first": res.firstBad})
+		}
+		if res.exported > 0 {
+			c.Violation("items of a refused request were exported", fmt.Sprintf("%d items of over-limit requests reached the next consumer", res.exported), nil)
+		}
+		c.FP("hammer", fmt.Sprint(limit), fmt.Sprint(early), fmt.Sprint(c.Idx))
+		c.Nontrivial(true)
+		c.Sample(map[string]any{"layer": "overlimit-hammer", "limit": limit, "early_return": early, "goroutines": 8, "calls": res.calls, "refused_permanently": res.refused})
 	})
 	r.Layer("stress", e.Pick(100, 1500), func(c *vc.Case) {
 		if c.Idx%2 == 1 {
